@@ -320,13 +320,26 @@ def expression_helper(fn: T.Any) -> ast.expr | None:
     def as_expr(stmts: list[ast.stmt]) -> ast.expr | None:
         temps: dict[str, ast.expr] = {}
         stmts = list(stmts)
+        ordered: list[str] = []
         while len(stmts) > 1 and isinstance(stmts[0], (ast.Assign, ast.AnnAssign)):
             st = stmts[0]
             tg = st.targets[0] if isinstance(st, ast.Assign) and len(st.targets) == 1 else getattr(st, "target", None)
-            if not (isinstance(tg, ast.Name) and getattr(st, "value", None) is not None and plain(st.value)):
+            if not (isinstance(tg, ast.Name) and getattr(st, "value", None) is not None):
                 return None
+            if not plain(st.value):
+                # a computed temporary (a call): it may be substituted only if the result uses it exactly once and the
+                # temporaries appear there in the order in which they were computed (evaluation order unchanged)
+                ordered.append(tg.id)
             temps[tg.id] = _Subst(dict(temps), {}).visit(_clone(st.value))
             stmts = stmts[1:]
+        if ordered:
+            if not (len(stmts) == 1 and isinstance(stmts[0], ast.Return) and stmts[0].value is not None):
+                return None
+            seq = [x.id for x in sorted((x for x in ast.walk(stmts[0].value) if isinstance(x, ast.Name) and x.id in ordered), key=lambda x: (x.lineno, x.col_offset))]
+            others_impure = any(isinstance(x, (ast.Call, ast.Await)) for x in ast.walk(stmts[0].value)
+                                if isinstance(x, (ast.Call, ast.Await)) and not (isinstance(x, ast.Call) and isinstance(x.func, ast.Name) and x.func.id in ("min", "max", "len", "bool", "int", "tuple")))
+            if seq != ordered or others_impure:
+                return None
         e: ast.expr | None = None
         if len(stmts) == 1 and isinstance(stmts[0], ast.Return) and stmts[0].value is not None:
             e = stmts[0].value
@@ -505,7 +518,7 @@ def _observed(fn: T.Any, stmt: ast.stmt, var: str) -> bool:
 
 
 def _expand(call: ast.Call, form: str, target: T.Any, helper: T.Any, receiver: ast.expr | None, serial: int, caller_names: T.Container[str] = frozenset(),
-            observed: bool = False) -> list[ast.stmt] | None:
+            observed: bool = False, single_use: T.Container[str] = frozenset()) -> list[ast.stmt] | None:
     bound = _bind(call, helper, receiver)
     if bound is None:
         return None
@@ -521,6 +534,12 @@ def _expand(call: ast.Call, form: str, target: T.Any, helper: T.Any, receiver: a
                 and not any(isinstance(x, ast.Name) and x.id == a.id for q, b_ in bound.items() if q != p for x in ast.walk(b_)):
             # `x = helper(x)` with the parameter re-bound inside the helper: the helper works on the caller's variable itself
             # (nobody can observe the intermediate values: no handler of the caller reads x)
+            rename[p] = a.id
+        elif isinstance(a, ast.Name) and p in assigned and a.id in single_use and not observed \
+                and not any(isinstance(x, ast.Name) and x.id == a.id for q, b_ in bound.items() if q != p for x in ast.walk(b_)) \
+                and a.id not in {v_ for v_ in assigned if v_ not in bound}:
+            # the caller never reads this variable again (its only read is this argument): the helper, which re-binds the
+            # parameter, may work on the caller's variable directly
             rename[p] = a.id
         else:
             tmp = f"{p}__{helper.name.strip('_')}{serial}"
@@ -700,7 +719,13 @@ def inline_new_helpers(tree: ast.Module, known_functions: set[str], extern: dict
                         if isinstance(helper, ast.AsyncFunctionDef) == is_async_call:
                             counter[0] += 1
                             obs = isinstance(c[2], ast.Name) and _observed(f, blk[i], c[2].id)
-                            out = _expand(c[0], c[1], c[2], helper, ref[1], counter[0], caller_names, obs)
+                            loads_: dict[str, int] = {}
+                            for n_ in ast.walk(f):
+                                if isinstance(n_, ast.Name) and isinstance(n_.ctx, ast.Load):
+                                    loads_[n_.id] = loads_.get(n_.id, 0) + 1
+                            in_handler = any(isinstance(t_, ast.Try) and any(blk[i] is x for b_ in t_.body for x in ast.walk(b_)) for t_ in ast.walk(f))
+                            single = {k_ for k_, v_ in loads_.items() if v_ == 1} if not in_handler else set()
+                            out = _expand(c[0], c[1], c[2], helper, ref[1], counter[0], caller_names, obs, single)
                             if out is not None:
                                 blk[i:i + 1] = out
                                 done += 1
